@@ -535,7 +535,7 @@ Definition c_has_eps (s : hstate) : bool := 2 <=? c_since s.
 Definition c_has_beta (p : hparams) (s : hstate) : bool := c_has_eps s && gate p (c_since s).
 Definition c_drift p s X boot : bool := c_has_beta p s && fltb (c_beta p s X boot) (c_ce p s X).
 Definition c_feps (p : hparams) (s : hstate) (X : list hrow) : option (list F) :=
-  if 1 <? c_total s then Some (zip_sub (c_fds p s X) (h_prev_fd s)) else h_feps s.
+  if 1 <? c_since s then Some (zip_sub (c_fds p s X) (h_prev_fd s)) else h_feps s.
 
 Lemma gate_has_eps (p : hparams) n : gate p n = true -> (2 <=? n) = true.
 Proof. unfold gate. destruct (h_db p =? 3); lia. Qed.
@@ -639,19 +639,21 @@ Lemma core_records (p : hparams) s X b :
   h_beta_now s' = (if gate p (h_since s + 1) then Some (c_beta p s X b) else None) /\
   h_thr s' = (if gate p (h_since s + 1) then (h_total s + 1, c_beta p s X b) :: h_thr s else h_thr s) /\
   h_beta s' = (if gate p (h_since s + 1) then Some (c_beta p s X b) else h_beta s) /\
-  h_feps s' = (if 1 <? h_total s + 1 then Some (zip_sub (c_fds p s X) (h_prev_fd s)) else h_feps s).
+  h_feps s' = (if 1 <? h_since s + 1 then Some (zip_sub (c_fds p s X) (h_prev_fd s)) else h_feps s).
 Proof. cbv zeta. rewrite core_eq. cbv zeta. simpl. rewrite has_beta_gate. unfold c_has_eps, c_since, c_total, c_feps, c_total. repeat split; reflexivity. Qed.
 
 (** feature_info on drift, several features: the per-feature differences, the per-feature distances,
     and the position of the first maximal difference *)
-Lemma core_feature_info (p : hparams) s X b : c_drift p s X b = true -> 1 <= h_total s ->
+Lemma core_feature_info (p : hparams) s X b : c_drift p s X b = true ->
   h_finfo (core p s X b) =
   (if 1 <? h_k p
    then (let fe := zip_sub (c_fds p s X) (h_prev_fd s) in Some (fe, c_fds p s X, argmax_first fe))
-   else h_finfo s).
+   else h_finfo s) /\
+  h_feps (core p s X b) = Some (zip_sub (c_fds p s X) (h_prev_fd s)).
 Proof.
-  intros Hd Ht. rewrite core_eq. cbv zeta. rewrite Hd. simpl. unfold c_feps, c_total.
-  replace (1 <? h_total s + 1) with true by lia. reflexivity.
+  intros Hd. pose proof (drift_needs_gate _ _ _ _ Hd) as Hg. apply gate_has_eps in Hg.
+  rewrite core_eq. cbv zeta. rewrite Hd. simpl. unfold c_feps, c_since.
+  replace (1 <? h_since s + 1) with true by lia. split; reflexivity.
 Qed.
 Lemma core_feature_info_kept (p : hparams) s X b : c_drift p s X b = false -> h_finfo (core p s X b) = h_finfo s.
 Proof. intros Hd. rewrite core_eq. cbv zeta. rewrite Hd. reflexivity. Qed.
@@ -709,6 +711,14 @@ Proof.
   - unfold hdm_reset_base. rewrite E. simpl. repeat split; lia.
 Qed.
 
+Lemma reset_keeps_attrs (p : hparams) s : h_finfo (reset p s) = h_finfo s /\ h_feps (reset p s) = h_feps s.
+Proof.
+  unfold hdm_reset. destruct (h_db p =? 1) eqn:E; [|split; reflexivity].
+  rewrite core_eq. cbv zeta.
+  destruct (reset_base_since1 p s (hdm_proxy s) f0) as (H1 & H2 & H3). rewrite H1. simpl.
+  unfold c_feps, c_since. simpl. split; reflexivity.
+Qed.
+
 (** ---------------- update(): the lifecycle facts ---------------- *)
 Lemma update_total (p : hparams) s X b :
   h_total (update p s X b) = h_total s + (if is_drift (h_ds s) && (h_db p =? 1) then 2 else 1).
@@ -743,10 +753,11 @@ Definition hinv (p : hparams) (s : hstate) : Prop :=
   zlen (h_eps s) = eps_len p (h_since s) /\
   (h_ds s <> DDrift ->
      h_total s - h_lambda s = h_since s /\ h_ref_n s = zlen (h_ref s) /\ h_bins s = Z.sqrt (zlen (h_ref s))) /\
-  (h_ds s = DDrift -> h_lambda s = h_total s /\ gate p (h_since s) = true).
+  (h_ds s = DDrift -> h_lambda s = h_total s /\ gate p (h_since s) = true) /\
+  ((1 <? h_k p) = false -> h_finfo s = None).
 
 Lemma hinv_init (p : hparams) : hinv p hdm_init.
-Proof. unfold hinv, hdm_init, eps_len, zlen. simpl. destruct (h_db p =? 3); repeat split; try lia; try discriminate. Qed.
+Proof. unfold hinv, hdm_init, eps_len, zlen. simpl. destruct (h_db p =? 3); repeat split; try lia; try discriminate; try reflexivity. Qed.
 
 Lemma at_eps_len (p : hparams) s X b : 0 <= h_since s -> zlen (h_eps s) = eps_len p (h_since s) ->
   zlen (if c_has_beta p s then fst (fst (c_at p s X b)) else if c_has_eps s then c_eps_b p s X b else h_eps s)
@@ -770,33 +781,37 @@ Qed.
 
 Lemma hinv_core (p : hparams) s X b : hinv p s -> h_ds s <> DDrift -> hinv p (core p s X b).
 Proof.
-  intros (Hs & Hw & HK & Hn & _) Hd. destruct (Hn Hd) as (Hl & Hrn & Hb).
+  intros (Hs & Hw & HK & Hn & _ & Hfi) Hd. destruct (Hn Hd) as (Hl & Hrn & Hb).
   unfold hinv. rewrite core_total, core_since, core_ds, core_lambda.
   split; [lia|]. split; [destruct (c_drift p s X b); [discriminate | exact Hw]|].
-  split.
-  - rewrite core_eq. cbv zeta. cbn [h_eps]. apply at_eps_len; [lia | exact HK].
-  - destruct (c_drift p s X b) eqn:E.
-    + split; [intros C; congruence|]. intros _. split; [reflexivity | apply (drift_needs_gate _ _ _ _ E)].
-    + split; [|intros C; congruence]. intros _.
-      assert (Hnd : h_ds (core p s X b) <> DDrift) by (rewrite core_ds, E; exact Hd).
-      destruct (core_keeps_epoch _ _ _ _ Hnd) as (R1 & R2 & R3 & _). cbv zeta in *.
-      rewrite R3, R2, R1, zlen_app. repeat split; lia.
+  split; [rewrite core_eq; cbv zeta; cbn [h_eps]; apply at_eps_len; [lia | exact HK]|].
+  assert (Hfi' : (1 <? h_k p) = false -> h_finfo (core p s X b) = None).
+  { intros Hk. rewrite core_eq. cbv zeta. cbn [h_finfo]. rewrite Hk, andb_false_r. apply Hfi, Hk. }
+  destruct (c_drift p s X b) eqn:E.
+  - split; [intros C; congruence|]. split; [|exact Hfi'].
+    intros _. split; [reflexivity | apply (drift_needs_gate _ _ _ _ E)].
+  - split; [|split; [intros C; congruence | exact Hfi']]. intros _.
+    assert (Hnd : h_ds (core p s X b) <> DDrift) by (rewrite core_ds, E; exact Hd).
+    destruct (core_keeps_epoch _ _ _ _ Hnd) as (R1 & R2 & R3 & _). cbv zeta in *.
+    rewrite R3, R2, R1, zlen_app. repeat split; lia.
 Qed.
 
-Lemma hinv_reset (p : hparams) s : 0 <= h_total s -> h_lambda s = h_total s -> h_ds s <> DWarn -> hinv p (reset p s).
+Lemma hinv_reset (p : hparams) s : 0 <= h_total s -> h_lambda s = h_total s -> h_ds s <> DWarn ->
+  ((1 <? h_k p) = false -> h_finfo s = None) -> hinv p (reset p s).
 Proof.
-  intros Ht Hl Hw. destruct (reset_fields p s) as (R1 & R2 & R3 & R4 & R5 & R6 & R7 & R8 & R9). cbv zeta in *.
-  unfold hinv. rewrite R1, R2, R3, R4, R5, R7, R8, R9. unfold eps_len, zlen. simpl.
-  destruct (h_db p =? 1) eqn:E1; destruct (h_db p =? 3) eqn:E3; repeat split; try lia; try discriminate.
+  intros Ht Hl Hw Hfi. destruct (reset_fields p s) as (R1 & R2 & R3 & R4 & R5 & R6 & R7 & R8 & R9). cbv zeta in *.
+  destruct (reset_keeps_attrs p s) as [Rf _].
+  unfold hinv. rewrite R1, R2, R3, R4, R5, R7, R8, R9, Rf. unfold eps_len, zlen. simpl.
+  destruct (h_db p =? 1) eqn:E1; destruct (h_db p =? 3) eqn:E3; repeat split; try lia; try discriminate; try exact Hfi.
 Qed.
 
 Lemma hinv_update (p : hparams) s X b : hinv p s -> hinv p (update p s X b).
 Proof.
   intros H. unfold hdm_update. destruct (is_drift (h_ds s)) eqn:E.
   - assert (Hd : h_ds s = DDrift) by (destruct (h_ds s); try discriminate; reflexivity).
-    destruct H as (Hs & Hw & _ & _ & Hdr). destruct (Hdr Hd) as [Hl _].
+    destruct H as (Hs & Hw & _ & _ & Hdr & Hfi). destruct (Hdr Hd) as [Hl _].
     apply hinv_core.
-    + apply hinv_reset; [lia | exact Hl | exact Hw].
+    + apply hinv_reset; [lia | exact Hl | exact Hw | exact Hfi].
     + destruct (reset_fields p s) as (R1 & _). rewrite R1. discriminate.
   - apply hinv_core; [exact H|]. destruct (h_ds s); try discriminate; intros; discriminate.
 Qed.
@@ -804,7 +819,7 @@ Qed.
 Lemma hinv_set_reference (p : hparams) s X : hinv p s -> hinv p (set_reference p s X).
 Proof.
   intros H. unfold hdm_set_reference. destruct ((h_db p =? 1) && (zlen X <? 3)); [exact H|].
-  destruct H as (Hs & Hw & _). apply hinv_reset; unfold with_reference; simpl; [lia | reflexivity | exact Hw].
+  destruct H as (Hs & Hw & _ & _ & _ & Hfi). apply hinv_reset; unfold with_reference; simpl; [lia | reflexivity | exact Hw | exact Hfi].
 Qed.
 
 Lemma hinv_run (p : hparams) ops s : hinv p s -> hinv p (run p s ops).
@@ -825,7 +840,9 @@ Qed.
 (** two detectors in the same epoch state, their batch indices differing by [k]; what is left out
     (the per-feature distances of the previous batch, the records of earlier epochs, attributes that
     keep their last value) is never read by the fields listed *)
-Definition twin (k : Z) (a b : hstate) : Prop :=
+Definition twin (p : hparams) (k : Z) (a b : hstate) : Prop :=
+  (1 <= h_since a -> h_prev_fd a = h_prev_fd b) /\ (2 <= h_since a -> h_feps a = h_feps b) /\
+  (h_ds a = DDrift -> h_finfo a = h_finfo b) /\ ((1 <? h_k p) = false -> h_finfo a = h_finfo b) /\
   h_ref a = h_ref b /\ h_ref_n a = h_ref_n b /\ h_bins a = h_bins b /\ h_eps a = h_eps b /\ h_tot a = h_tot b /\
   h_lambda a = h_lambda b + k /\ h_total a = h_total b + k /\ h_since a = h_since b /\ 0 <= h_since a /\
   h_ds a = h_ds b /\ (1 <= h_since a -> h_prev a = h_prev b) /\
@@ -1039,8 +1056,8 @@ Proof.
   intros [H J]. split; [apply hinv_update, H|]. unfold hdm_update.
   destruct (is_drift (h_ds s)) eqn:E; [|apply tot_inv_core; assumption].
   assert (Hd : h_ds s = DDrift) by (destruct (h_ds s); try discriminate; reflexivity).
-  destruct H as (Hs & Hw & _ & _ & Hdr). destruct (Hdr Hd) as [Hl _].
-  apply tot_inv_core; [|apply tot_inv_reset]. apply hinv_reset; [lia | exact Hl | exact Hw].
+  destruct H as (Hs & Hw & _ & _ & Hdr & Hfi). destruct (Hdr Hd) as [Hl _].
+  apply tot_inv_core; [|apply tot_inv_reset]. apply hinv_reset; [lia | exact Hl | exact Hw | exact Hfi].
 Qed.
 
 Lemma rinv_set_reference (p : hparams) s X : rinv p s -> rinv p (set_reference p s X).
